@@ -435,7 +435,8 @@ impl<'ast, 'a> Visit<'ast> for Pass<'a> {
     }
     fn visit_expr_for_loop(&mut self, n: &'ast syn::ExprForLoop) {
         if is_on(self.d, "R10") {
-            // `for P in V.iter_mut().filter(|s| C) { B }`  =>  index loop over V (DESIGN §3.2 R10).
+            // `for P in V.iter_mut().filter(|s| C) { B }`  =>  index loop over V (DESIGN §3.2 R10); the `for` must be in
+            // statement position (two statements are emitted: a block around them confuses Verus' loop-clause parser).
             // The increment precedes the body so that `continue` in B keeps its meaning; B is kept verbatim.
             // Sound because B cannot change V's length while `iter_mut()` borrows it (borrow checker).
             if let syn::Expr::MethodCall(f) = &*n.expr {
@@ -449,7 +450,7 @@ impl<'ast, 'a> Visit<'ast> for Pass<'a> {
                             self.edits.push(Edit {
                                 range: br(n.span()),
                                 text: format!(
-                                    "{{ let mut __vp_i: usize = 0; while __vp_i < {v}.len() {{ let __vp_j = __vp_i; __vp_i += 1; if !({{ let {p} = &{v}[__vp_j]; {c} }}) {{ continue; }} let {pat} = &mut {v}[__vp_j]; {body} }} }}",
+                                    "let mut __vp_i: usize = 0; while __vp_i < {v}.len() {{ let __vp_j = __vp_i; __vp_i += 1; if !({{ let {p} = &{v}[__vp_j]; {c} }}) {{ continue; }} let {pat} = &mut {v}[__vp_j]; {body} }}",
                                     v = v, p = pats[0], c = cbody, pat = pat, body = body
                                 ),
                                 rule: "R10",
